@@ -13,13 +13,14 @@ EXTENDS Integers, Sequences, FiniteSets, TLC, Json
 CONSTANTS EMIT, BIG         \* BIG: include 2^18-sized register vectors
 VARIABLE doc
 Bs == {0, 3, 4, 5, 8, 17, 18, 19, 63, 64, 65, 2147483647}
-LenKinds == {"empty", "one", "m-1", "m", "m+1", "sixteen"} \cup (IF BIG THEN {"2^18", "2^18+1"} ELSE {})
+LenKinds == {"empty", "one", "m-1", "m", "m+1", "2m", "3m", "sixteen"} \cup (IF BIG THEN {"2^18", "2^18+1"} ELSE {})
 Pow2(k) == 2 ^ k
-HasM(b) == b <= 18
+HasM(b) == b <= 19          \* 2^19 registers are still generated (b just beyond the legal range with a matching length)
 LenOf(b, kind) ==
     CASE kind = "empty" -> 0 [] kind = "one" -> 1 [] kind = "sixteen" -> 16
       [] kind = "2^18" -> 262144 [] kind = "2^18+1" -> 262145
       [] kind = "m-1" -> Pow2(b) - 1 [] kind = "m" -> Pow2(b) [] kind = "m+1" -> Pow2(b) + 1
+      [] kind = "2m" -> 2 * Pow2(b) [] kind = "3m" -> 3 * Pow2(b)
 Three == {"registers", "b", "buildhasher"}
 Perms == {s \in [1 .. 3 -> Three] : \A i, j \in 1 .. 3 : i # j => s[i] # s[j]}
 Layouts ==
@@ -34,6 +35,8 @@ Valid(d) == /\ Len(d.fields) = 3 /\ {d.fields[i] : i \in 1 .. 3} = Three
 Emit(rec) == IF EMIT THEN PrintT(ToJson(rec)) ELSE TRUE
 Init == \E b \in Bs, kind \in LenKinds, fill \in Fills, fields \in Layouts :
           /\ (kind \in {"m-1", "m", "m+1"} => HasM(b))
+          /\ (kind \in {"2m", "3m"} => b <= 12)
+          /\ ((b >= 17 /\ kind \in {"m-1", "m", "m+1"}) => (IF fill = "zero" THEN TRUE ELSE fields = <<"registers", "b", "buildhasher">>))
           /\ (kind \in {"2^18", "2^18+1"} => (fill = "zero" /\ fields = <<"registers", "b", "buildhasher">>))
           /\ doc = [k |-> "doc", b |-> b, kind |-> kind, len |-> LenOf(b, kind), fill |-> fill, fields |-> fields]
           /\ Emit(doc @@ [valid |-> Valid(doc)])
